@@ -255,7 +255,7 @@ def coqchk(ctx):
     import vlib
     mods = ["NQ.Proofs.ExecProofs", "NQ.Proofs.Bridge_Asm", "NQ.Proofs.Bridge_AsmChain", "NQ.Proofs.Bridge_Nv",
             "NQ.Proofs.Bridge_Sdk", "NQ.Proofs.Bridge_Epr", "NQ.Proofs.Bridge_AsmQ", "NQ.Proofs.Bridge_SdkAsm",
-            "NQ.Proofs.Bridge_E2E", "NQ.Proofs.Bridge_E2E_H1", "NQ.Proofs.Bridge_E2E_Wire", "NQ.Proofs.HwProofs"]
+            "NQ.Proofs.Bridge_E2E", "NQ.Proofs.Bridge_E2E_H1", "NQ.Proofs.Bridge_E2E_Wire", "NQ.Proofs.Bridge_E2E_WireTotal", "NQ.Proofs.HwProofs"]
     r = subprocess.run(["timeout", "2400", "coqchk", "-silent", "-o", "-Q", vlib.COQ, "NQ"] + mods,
                        capture_output=True, text=True)
     out = r.stdout + r.stderr
